@@ -58,6 +58,14 @@ impl BasePath {
         self.base_path.trim_start_matches("file://")
     }
 
+    // a document the library is made of: a Markdown file under the library directory
+    fn holds(&self, url: &Url) -> bool {
+        url.to_file_path()
+            .map(|path| path.to_string_lossy().to_string())
+            .map(|path| path.starts_with(self.directory()) && path.ends_with(".md"))
+            .unwrap_or(false)
+    }
+
     // URIs are built from file system paths, so that names with spaces, '#', '?', '%' or
     // non-ASCII characters are percent-encoded exactly as an editor encodes them
     fn path_to_url(&self, relative_path: &str) -> Url {
@@ -122,6 +130,12 @@ impl Server {
     }
 
     pub fn handle_did_save_text_document(&mut self, params: DidSaveTextDocumentParams) {
+        // other documents the editor has open (a file outside the library, an unsaved
+        // buffer, a text file) are not notes
+        if !self.base_path.holds(&params.text_document.uri) {
+            return;
+        }
+
         params.text.map(|text| {
             self.database.update_document(
                 self.base_path.url_to_key(&params.text_document.uri.clone()),
@@ -131,6 +145,10 @@ impl Server {
     }
 
     pub fn handle_did_change_text_document(&mut self, params: DidChangeTextDocumentParams) {
+        if !self.base_path.holds(&params.text_document.uri) {
+            return;
+        }
+
         self.database.update_document(
             self.base_path.url_to_key(&params.text_document.uri.clone()),
             // full-text sync: every change carries the whole text and they apply in order,
